@@ -51,6 +51,8 @@ Store(t, p, node) == [q \in (DOMAIN t) \cup {p} |-> IF q = p THEN node ELSE t[q]
 
 Any4xx == 400..499
 AnyFail == 400..599
+\* write faults: the largest file the environment stores while a fault is being injected
+WLimit == 4096
 
 Refuse(t, S) == [st |-> S, t |-> t, ok |-> FALSE]
 
@@ -112,6 +114,7 @@ MkcolOutcomes(t, p, r) ==
 
 \* destination forms: "path" (absolute path), "abs" (absolute URL, same host), "foreign" (other authority),
 \* "missing", "bad" (unparsable), "unmappable" (cannot be mapped below the root)
+BigIn(t, src, deep) == \E q \in DOMAIN t : (q = src \/ (deep /\ StrictUnder(q, src))) /\ t[q].k = "f" /\ t[q].n > WLimit
 CopyMoveOutcomes(t, move, src, r) ==
   LET dst == Normalize(r.dp)
       deep == move \/ DeepCopy(r)
@@ -142,7 +145,11 @@ CopyMoveOutcomes(t, move, src, r) ==
                   /\ sk # "a" /\ src # dst /\ ~StrictUnder(src, dst)
                   /\ ~ParentAbsent(t, dst) /\ ~BelowFile(t, dst) /\ ~(dk # "a" /\ OwFalse(r))
                   /\ (StrictUnder(dst, src) => (~move /\ sk = "c"))
-  IN IF R0 = {} THEN {succ}
+      \* a storage fault while the copy is being written (r.fault on a COPY: the environment refuses to store a file longer than
+      \* WLimit bytes): if the transfer has to write such a file it cannot succeed -- it is refused and nothing changes
+      wf == r.fault /\ ~move /\ usable /\ sk # "a" /\ BigIn(t, src, deep)
+  IN IF wf THEN {Refuse(t, R0 \cup AnyFail)}
+     ELSE IF R0 = {} THEN {succ}
      ELSE IF greyOnly THEN {Refuse(t, R0), succ}
      ELSE {Refuse(t, R0)}
 
